@@ -102,6 +102,13 @@ Definition spec (c : cfg) (cv : cov) (rep : reported) : Prop :=
   spec_name_id c cv rep /\ spec_ava c cv rep /\ spec_issuer c cv rep /\ spec_audience c cv rep
   /\ spec_validity c cv rep /\ spec_session c cv rep.
 
+(* "... are exactly those of AN element covered by a valid signature": ONE covered element accounts for everything
+   that is reported (round 5; before, every field was allowed to come from a covered element of its own, which lets a
+   splice of two genuinely signed assertions report a subject with somebody else's attributes and session — a
+   combination no signature covers).  A signed Response with several assertions is one element. *)
+Definition spec_one (c : cfg) (cv : cov) (rep : reported) : Prop :=
+  exists ek, In ek cv /\ spec c [ek] rep.
+
 (* everything except the issuer (the part that holds for the code as it is, see Property.v) *)
 Definition spec_but_issuer (c : cfg) (cv : cov) (rep : reported) : Prop :=
   spec_name_id c cv rep /\ spec_ava c cv rep /\ spec_audience c cv rep
@@ -137,6 +144,7 @@ Definition spec_but_issuer_b c cv rep :=
   spec_name_id_b c cv rep && spec_ava_b c cv rep && spec_audience_b c cv rep
   && spec_validity_b c cv rep && spec_session_b c cv rep.
 Definition spec_b c cv rep := spec_but_issuer_b c cv rep && spec_issuer_b c cv rep.
+Definition spec_one_b c (cv : cov) rep := existsb (fun ek => spec_b c [ek] rep) cv.
 
 (* ---- from a digest record to the covered element ------------------------------------------ *)
 (* the element at `target` of the document, with the verified signature (if it lies inside) removed *)
